@@ -33,6 +33,16 @@ fn main() {
         };
         let st = Settings::from_env(Tier::Quick).unwrap();
         let id = v.get("property").and_then(|x| x.as_str()).unwrap_or("");
+        if v.get("interference").is_some() {
+            let code = match id {
+                "C04" => framework::replay_interference(&props::c04::C04, path, &v),
+                "C12" => framework::replay_interference(&props::c12::C12, path, &v),
+                "C14" => framework::replay_interference(&props::c14::C14, path, &v),
+                "C17" => framework::replay_interference(&props::c17::C17, path, &v),
+                _ => 2,
+            };
+            std::process::exit(code);
+        }
         let code = match id {
             "C04" => framework::replay(&props::c04::C04, path, &st.verif_dir),
             "C14" => framework::replay(&props::c14::C14, path, &st.verif_dir),
@@ -42,6 +52,20 @@ fn main() {
                 eprintln!("HARNESS-ERROR: unknown property {:?} in {}", id, path.display());
                 2
             }
+        };
+        std::process::exit(code);
+    }
+    if args[0] == "interference" {
+        // simdec interference <ID> <quick|thorough> [rounds]
+        let tier = if args.len() > 2 && args[2] == "thorough" { Tier::Thorough } else { Tier::Quick };
+        let st = Settings::from_env(tier).unwrap();
+        let rounds: usize = args.get(3).and_then(|s| s.parse().ok()).unwrap_or(6);
+        let code = match args[1].as_str() {
+            "C04" => framework::interference(&props::c04::C04, &st, rounds),
+            "C12" => framework::interference(&props::c12::C12, &st, rounds),
+            "C14" => framework::interference(&props::c14::C14, &st, rounds),
+            "C17" => framework::interference(&props::c17::C17, &st, rounds),
+            _ => usage(),
         };
         std::process::exit(code);
     }
